@@ -1330,11 +1330,20 @@ def timing_involved(c, i):
     return any(x.get("late") or (x.get("bridge") or [""])[0] == "timeout" for x in calls)
 
 
-def confirm_timing(chk, suspects):
+def confirm_timing(chk, suspects, max_examined=12, enough=5):
     """a failure in a case that involves a time-out is reported only if the case, evaluated alone in a fresh process
-    (fresh Guards, nothing else running in the harness), fails three times out of three"""
-    for c, viols, corrs in suspects:
-        if all(reproduces_alone(c) for _ in range(3)):
+    (fresh Guards, the harness otherwise idle), fails three times out of three; a handful of confirmed cases is enough
+    for a report, so at most max_examined suspects are examined"""
+    from concurrent.futures import ThreadPoolExecutor
+    confirmed = 0
+    for k, (c, viols, corrs) in enumerate(suspects):
+        if k >= max_examined or confirmed >= enough:
+            chk.count("timing-suspects-not-examined", len(suspects) - k)
+            break
+        with ThreadPoolExecutor(3) as ex:
+            ok = all(ex.map(lambda _n: reproduces_alone(c), range(3)))
+        if ok:
+            confirmed += 1
             chk.violations.extend(viols)
             chk.corr_breaks.extend(corrs)
         else:
